@@ -501,7 +501,7 @@ IO_DESC = ('catalogue: array<float3>, array<double1>, constant (2), identity, st
            'over a token-emitting probe backend')
 INFO['C06'] = {
     'bounds': IO_DESC + '; every configuration value and stored scalar a symbolic bit pattern (NaN payloads, signed zeros, subnormals, '
-              'infinities); array length 0..2 quick / 0..3 thorough: load(dump(f)) bit-identical at every layer and index, reader consumes '
+              'infinities); array length 0..2 quick / 0..3 thorough, plus long payloads of exactly 86-90 elements (quick) / up to 300 (thorough): load(dump(f)) bit-identical at every layer and index, reader consumes '
               'exactly the written bytes, dump(load(dump(f))) == dump(f) byte for byte',
     'outside': 'arrays longer than the bound; stacks outside the catalogue (covered compositionally by the per-layer probe stacks)',
     'cuts': 'stream model (engine/models.py: istream::read / ostream::write on engine-owned streams); error-message formatting cut',
@@ -535,13 +535,27 @@ def units_C06(tier, seed):
         fl = ('rel', 'dbg') if k in (3, 4, 20, 8) or th else ('rel',)
         U += unit(f'c06_roundtrip_{k}', 'c06_io.cpp', f'roundtrip_h<{k},{b}>()', sites=[1, 2, 3, 4, 5, 6], flavours=fl,
                   diff=(k in (0, 3, 4, 5, 6, 21)), weight=10 if k < 20 else 1)
+    return U + long_payload_units(tier, 'C06')
+
+
+def long_payload_units(tier, which):
+    """array payloads longer than any plausible block size (300 scalars): exact length, all scalars symbolic"""
+    th = tier == 'thorough'
+    U = []
+    lens = [(0, 90), (3, 86)] + ([(11, 300), (13, 100), (5, 130), (10, 260)] if th else [])
+    for k, ln in lens:
+        U += unit(f'c06_roundtrip_long_{k}_{ln}', 'c06_io.cpp', f'roundtrip_len_h<{k},{ln}>()', sites=[1, 2, 3, 4, 5, 6], weight=ln * 3, timeout=1800,
+                  cfg={'sym_cells_cap': 8192})
+    if which == 'C07':
+        for a, bb, ln in [(3, 35, 86), (35, 3, 86)] + ([(10, 32, 260), (13, 0, 100)] if th else []):
+            U += unit(f'c07_cross_long_{a}_{bb}_{ln}', 'c06_io.cpp', f'cross_len_h<{a},{bb},{ln}>()', sites=[1, 3, 4], weight=ln * 3, timeout=1800)
     return U
 
 
 def units_C07(tier, seed):
     th = tier == 'thorough'
     b = 3 if th else 2
-    U = []
+    U = long_payload_units(tier, 'C07')
     for k in IO_STACKS + IO_LAYERS:
         U += unit(f'c06_roundtrip_{k}', 'c06_io.cpp', f'roundtrip_h<{k},{b}>()', sites=[1, 2, 3, 4, 5, 6], diff=(k in (3, 5)),
                   weight=10 if k < 20 else 1)
